@@ -749,4 +749,120 @@ theorem picks_zeroth_first (authic : Bool) (S : SMemo) (hn : 1 ≤ S.bodies.leng
   rw [hmid] at hfe
   rw [picks_held authic S V G hG rest his _ (store_genuine S es 0 (by omega) hinv).1 _ hfe]
 
+/-! ### several memos interleaved -/
+
+theorem findEntry_mem (mid : Bytes) (es : List Entry) (e : Entry) (h : findEntry mid es = some e) : e ∈ es ∧ e.mid = mid := by
+  induction es with
+  | nil => simp [findEntry] at h
+  | cons a as ih =>
+    simp only [findEntry] at h
+    split at h
+    · rename_i hm; cases h; exact ⟨List.mem_cons_self, hm⟩
+    · obtain ⟨h1, h2⟩ := ih h; exact ⟨List.mem_cons_of_mem _ h1, h2⟩
+
+theorem findEntry_of_mem_nodup (es : List Entry) (hnd : MidsNodup es) (e : Entry) (he : e ∈ es) : findEntry e.mid es = some e := by
+  induction es with
+  | nil => cases he
+  | cons a as ih =>
+    have hnd' : MidsNodup as := by unfold MidsNodup at hnd ⊢; exact (List.nodup_cons.mp hnd).2
+    have hnot : a.mid ∉ as.map (·.mid) := by unfold MidsNodup at hnd; exact (List.nodup_cons.mp hnd).1
+    rcases List.mem_cons.mp he with rfl | he
+    · simp [findEntry]
+    · have : a.mid ≠ e.mid := by
+        intro h; apply hnot; rw [h]; exact List.mem_map.mpr ⟨e, he, rfl⟩
+      simp only [findEntry, this, if_false]
+      exact ih hnd' he
+
+theorem store_mid_mem (p : PG) (s : Nat) (es : List Entry) : ∀ e ∈ store p s es, e.mid = p.mid ∨ e.mid ∈ es.map (·.mid) := by
+  intro e he
+  have := store_mids p s es
+  have hm : e.mid ∈ (store p s es).map (·.mid) := List.mem_map.mpr ⟨e, he, rfl⟩
+  rw [this] at hm
+  split at hm
+  · right; exact hm
+  · rcases List.mem_append.mp hm with h | h
+    · right; exact h
+    · left; simpa using h
+
+theorem storeAll_mid_mem (seq : List (PG × Nat)) (es : List Entry) :
+    ∀ e ∈ storeAll seq es, (∃ x ∈ seq, x.1.mid = e.mid) ∨ e.mid ∈ es.map (·.mid) := by
+  induction seq generalizing es with
+  | nil => intro e he; right; exact List.mem_map.mpr ⟨e, he, rfl⟩
+  | cons x xs ih =>
+    obtain ⟨p, s⟩ := x
+    intro e he
+    rcases ih (store p s es) e he with ⟨y, hy, hym⟩ | h
+    · left; exact ⟨y, List.mem_cons_of_mem _ hy, hym⟩
+    · obtain ⟨e', he', hm'⟩ := List.mem_map.mp h
+      rcases store_mid_mem p s es e' he' with h1 | h1
+      · left; exact ⟨(p, s), List.mem_cons_self, by rw [← hm']; exact h1.symm⟩
+      · right; rw [← hm']; exact h1
+
+/-- a family of memos with pairwise different ids -/
+def MidInj (F : List SMemo) : Prop := ∀ a ∈ F, ∀ b ∈ F, a.mid = b.mid → a = b
+
+/-- a shuffled queue of grams of several memos (none carrying a signer id) is accepted as a whole: storing a gram of one memo does not
+touch what is held for the others -/
+theorem picks_family (F : List SMemo) (hinj : MidInj F) (hv : ∀ S ∈ F, S.vid = none) (V : Bytes → Bytes → Bytes → Except Exn Unit)
+    (G : SMemo → Nat → Bytes)
+    (hG : ∀ S ∈ F, ∀ i, i < S.bodies.length → ∀ vidOf : Bytes → Option Bytes, vidOf S.mid = none → pick false vidOf V (G S i) = .ok (S.gram i))
+    (js : List (SMemo × Nat)) (hjs : ∀ x ∈ js, x.1 ∈ F ∧ x.2 < x.1.bodies.length) (es : List Entry) (hinv : ∀ S ∈ F, SInv S es) :
+    picks false V (js.map fun x => (G x.1 x.2, x.1.src)) es = some (js.map fun x => (x.1.gram x.2, x.1.src)) := by
+  induction js generalizing es with
+  | nil => rfl
+  | cons x xs ih =>
+    obtain ⟨S, i⟩ := x
+    obtain ⟨hS, hi⟩ := hjs (S, i) List.mem_cons_self
+    have hp := hG S hS i hi (vidOfEntries es) (vidOf_of_SInv S (hv S hS) es (hinv S hS))
+    have hne : (G S i).isEmpty = false := by
+      cases hg : G S i with
+      | nil => rw [hg] at hp; simp [pick, wiff] at hp
+      | cons a as => rfl
+    simp only [List.map_cons, picks, hne, Bool.false_eq_true, if_false, hp]
+    have hinv' : ∀ S' ∈ F, SInv S' (store (S.gram i) S.src es) := by
+      intro S' hS'
+      by_cases hm : S.mid = S'.mid
+      · have := hinj S hS S' hS' hm
+        subst this
+        exact (store_genuine S es i hi (hinv S hS)).1
+      · exact (store_other S' es (S.gram i) S.src hm (hinv S' hS')).1
+    rw [ih (fun y hy => hjs y (List.mem_cons_of_mem _ hy)) _ hinv']
+
+theorem genuine_family (F : List SMemo) (hinj : MidInj F) (js : List (SMemo × Nat)) (hjs : ∀ x ∈ js, x.1 ∈ F ∧ x.2 < x.1.bodies.length)
+    (S : SMemo) (hS : S ∈ F) : Genuine S (js.map fun x => (x.1.gram x.2, x.1.src)) := by
+  intro y hy hm
+  obtain ⟨x, hx, rfl⟩ := List.mem_map.mp hy
+  obtain ⟨hxF, hxi⟩ := hjs x hx
+  have : x.1 = S := hinj x.1 hxF S hS hm
+  subst this
+  exact ⟨x.2, hxi, rfl⟩
+
+theorem idx_family (F : List SMemo) (hinj : MidInj F) (js : List (SMemo × Nat)) (hjs : ∀ x ∈ js, x.1 ∈ F ∧ x.2 < x.1.bodies.length)
+    (S : SMemo) (hS : S ∈ F) (i : Nat) : i ∈ idx S (js.map fun x => (x.1.gram x.2, x.1.src)) ↔ (S, i) ∈ js := by
+  induction js with
+  | nil => simp [idx]
+  | cons x xs ih =>
+    have ih' := ih (fun y hy => hjs y (List.mem_cons_of_mem _ hy))
+    obtain ⟨hxF, _⟩ := hjs x List.mem_cons_self
+    by_cases hm : x.1.mid = S.mid
+    · have hx1 : x.1 = S := hinj x.1 hxF S hS hm
+      have : idx S ((x.1.gram x.2, x.1.src) :: xs.map fun x => (x.1.gram x.2, x.1.src)) = x.2 :: idx S (xs.map fun x => (x.1.gram x.2, x.1.src)) := by
+        simp [idx, SMemo.gram, hm]
+      rw [List.map_cons, this, List.mem_cons, List.mem_cons, ih']
+      constructor
+      · rintro (h | h)
+        · left; rw [h, ← hx1]
+        · right; exact h
+      · rintro (h | h)
+        · left; rw [← h]
+        · right; exact h
+    · have : idx S ((x.1.gram x.2, x.1.src) :: xs.map fun x => (x.1.gram x.2, x.1.src)) = idx S (xs.map fun x => (x.1.gram x.2, x.1.src)) := by
+        simp [idx, SMemo.gram, hm]
+      rw [List.map_cons, this, List.mem_cons, ih']
+      constructor
+      · intro h; right; exact h
+      · rintro (h | h)
+        · exfalso; apply hm; rw [← h]
+        · exact h
+
 end Hio.Memo
